@@ -150,3 +150,14 @@ CHECKS["C09"] = dict(
          "executed; distinct_nontrivial = placements whose fault was actually reached and thrown. Violation key = element kind | operation class | fault kind {alloc, elem-ctor, elem-assign} | symptom.",
     assumptions=HIST_ASSUME[:1] + ["element move operations may throw in this build (INSTR_THROWING_MOVE) so that every element operation is a fault site", "a child killed by std::terminate is the observation 'terminate'", "g++ 12 -O0 ASan+UBSan"],
 )
+
+CHECKS["C17"] = dict(
+    title="serialization round trips", level="exploration", engine="E2",
+    claim=("Complete grid: element type {int,double,std::string,nested array<int,1>} x D=0..4 x shape menu (incl. zero extents) x archive kind {text,binary,xml} x prior state of the loading array "
+           "{default, same extents, other count, permuted extents with the same count, cleared, moved-from, larger}; and all ordered pairs (saved view, loading view) of equal extents from the E1 state sets "
+           "(depth 2 quick / 3 thorough) of two guard-buffer roots, where the loading root's whole buffer is compared with 'k-th canonical element <- k-th canonical element'."),
+    jobs=lambda tier: [Job("sermc", cfg="san", args=["--tier=" + tier], libs=["-lboost_serialization"])],
+    rule=("flat enumeration of the grid above, every case executed on the real implementation with Boost.Serialization 1.83; oracle for arrays: extensions()==, element-wise ==, operator==; for views: whole "
+          "destination buffer incl. guards vs model expectation, source unchanged. distinct_nontrivial = cases with >= 2 elements. The archive kind cycles over view pairs (all three kinds occur in every extents class)."),
+    assumptions=["Boost.Serialization is the environment", "views of read-only type (const_subarray) cannot be saved on this tree (serialize() does not compile for them): not generated", "g++ 12 -O0 ASan+UBSan"],
+)
